@@ -214,11 +214,28 @@ def check(case, ctx):
                     ctx.fail('label-shift', shift, (a[1] - b[1]) if a[0] == b[0] == 'ok' else [_v(a), _v(b)], ion=ion,
                              use_isotope_on_mods=on_mods, labelled=s1, unlabelled=s0,
                              atoms={LABEL_EL[lab]: base.get(LABEL_EL[lab], 0) for lab in labs})
+                # the composition calculator honours the same option: its composition weighs what mass() reports
+                if case['mod'] != '10' and a[0] == 'ok':
+                    cc = lib.call(lambda: p.chem_mass(p.comp(s1, ion_type=ion, use_isotope_on_mods=on_mods)))
+                    ctx.evals += 1
+                    if cc[0] != 'ok' or not lib.close(cc[1], a[1], 1e-4):
+                        ctx.fail('label-comp-vs-mass', _v(a), _v(cc), ion=ion, use_isotope_on_mods=on_mods, labelled=s1)
                 # the label given as an argument behaves like the label written in the string
                 c = lib.call(p.mass, s0, ion_type=ion, isotope_mods=list(labs), use_isotope_on_mods=on_mods)
                 ctx.evals += 1
                 if a[0] == 'ok' and (c[0] != 'ok' or not lib.close(c[1], a[1], 1e-9)):
                     ctx.fail('label-argument-vs-string', _v(a), _v(c), ion=ion, labelled=s1)
+        if case['mod'] is not None and str(case.get('where', '')).startswith('rule'):
+            # labelled peptide with a global rule: its fragment ions are those of the labelled explicit form
+            s_exp = pmodel.render(pmodel.expand_static(P2))
+            fa = lib.call(p.fragment, s1, ['b', 'y', 'c', 'z'], [1])
+            fb = lib.call(p.fragment, s_exp, ['b', 'y', 'c', 'z'], [1])
+            ctx.evals += 2
+            ka = sorted((f.ion_type, f.start, f.end, round(f.mass, 5)) for f in fa[1]) if fa[0] == 'ok' else _v(fa)
+            kb = sorted((f.ion_type, f.start, f.end, round(f.mass, 5)) for f in fb[1]) if fb[0] == 'ok' else _v(fb)
+            if ka != kb:
+                ctx.fail('labelled-fragments-rule-vs-explicit', kb if isinstance(kb, str) else [x for x in kb if x not in ka][:4],
+                         ka if isinstance(ka, str) else [x for x in ka if x not in kb][:4], rule_form=s1, explicit_form=s_exp)
         ctx.outcome = [s1]
 
 
